@@ -731,6 +731,74 @@ pub fn synth_event(v: &Value) -> String {
 }
 
 // ---------------------------------------------------------------------------------------------
+// C17: purity.  A pool of calls; histories execute them back to back on one thread or concurrently.
+
+fn pure_call(c: &Value) -> String {
+    let f = c["f"].as_str().unwrap_or("");
+    let pkt = vbytes(&c["pkt"]);
+    let y: Result<Result<Vec<u8>, Error>, ()> = match f {
+        "parse" => guarded(|| DNSSector::new(pkt.clone()).and_then(|d| d.parse()).map(|p| {
+            let mut v = p.packet().to_vec();
+            v.extend(view_json(&p).as_bytes());
+            v
+        })),
+        "uncompress" => guarded(|| Compress::uncompress(&pkt)),
+        "compress" => guarded(|| Compress::compress(&pkt)),
+        "rename" => guarded(|| {
+            let mut pp = DNSSector::new(pkt.clone())?.parse()?;
+            Renamer::rename_with_raw_names(&mut pp, &vbytes(&c["target"]), &vbytes(&c["source"]), c["suffix"].as_bool().unwrap_or(false))
+        }),
+        "rename_obj" => guarded(|| {
+            let mut pp = DNSSector::new(pkt.clone())?.parse()?;
+            pp.rename_with_raw_names(&vbytes(&c["target"]), &vbytes(&c["source"]), c["suffix"].as_bool().unwrap_or(false))?;
+            Ok(pp.packet().to_vec())
+        }),
+        "synth" => guarded(|| dnssector::synth::r#gen::RR::from_string(c["text"].as_str().unwrap_or("")).map(|r| r.packet)),
+        "name" => guarded(|| dnssector::synth::r#gen::raw_name_from_str(&vbytes(&c["text_bytes"]), None)),
+        "empty" => guarded(|| Ok(ParsedPacket::empty().packet().to_vec())),
+        "query" => guarded(|| dnssector::synth::r#gen::query(b"example.com", Type::A, Class::IN).map(|p| p.packet().to_vec())),
+        _ => Ok(Err(DSError::InternalError("unknown").into())),
+    };
+    let f2 = if f == "query" { "empty" } else { f };
+    format!("{{\"f\":\"{}\",\"x\":{},\"y\":{}}}", f2, c["x"], out3(&y))
+}
+
+pub fn purity_event(v: &Value) -> String {
+    let calls: Vec<Value> = v["calls"].as_array().cloned().unwrap_or_default();
+    let threads = vusize(&v["threads"]).max(1);
+    if threads == 1 {
+        let res: Vec<String> = calls.iter().map(pure_call).collect();
+        return format!("{{\"k\":\"purity\",\"threads\":1,\"calls\":[{}],\"per_thread\":[]}}", res.join(","));
+    }
+    let reps = vusize(&v["reps"]).max(1);
+    let mut handles = vec![];
+    let barrier = std::sync::Arc::new(std::sync::Barrier::new(threads));
+    for t in 0..threads {
+        let calls = calls.clone();
+        let b = barrier.clone();
+        handles.push(std::thread::spawn(move || {
+            b.wait();
+            let mut res = vec![];
+            for r in 0..reps {
+                // every thread walks the pool in its own rotation so that different inputs overlap in time
+                for k in 0..calls.len() {
+                    res.push(pure_call(&calls[(k + t * 3 + r) % calls.len()]));
+                }
+            }
+            res
+        }));
+    }
+    let mut per = vec![];
+    for h in handles {
+        match h.join() {
+            Ok(r) => per.push(format!("[{}]", r.join(","))),
+            Err(_) => per.push("[{\"f\":\"thread\",\"x\":0,\"y\":{\"k\":\"panic\",\"b\":[],\"e\":\"\"}}]".to_string()),
+        }
+    }
+    format!("{{\"k\":\"purity\",\"threads\":{},\"calls\":[],\"per_thread\":[{}]}}", threads, per.join(","))
+}
+
+// ---------------------------------------------------------------------------------------------
 // dispatcher for scenario lines {"do": ..., ...}
 
 pub fn run_line(v: &Value) -> Option<String> {
@@ -766,6 +834,8 @@ pub fn run_line(v: &Value) -> Option<String> {
         }
         "read" => read_event(&pkt),
         "hdr" => Some(header_event(v)),
+        "purity" => Some(purity_event(v)),
+        "threads" => Some(crate::cabi::run_schedule(v)),
         "synth" => Some(synth_event(v)),
         "walk" => crate::hist::run_walk(v),
         "nametext" => Some(nametext_event(&vbytes(&v["text"]), &vbytes(&v["zone"]))),
